@@ -61,7 +61,8 @@ pub struct SuccinctBitVector {
 
     /// Relative rank within superblock for each block.
     /// block_ranks[i] = number of 1-bits from superblock start to block i start.
-    /// Uses u8 since max value is SUPERBLOCK_BITS - BLOCK_BITS = 448.
+    /// The value can reach SUPERBLOCK_BITS - BLOCK_BITS = 448, which does not fit in a u8:
+    /// only its low 8 bits are stored and [`Self::block_rank`] restores the rest.
     block_ranks: Vec<u8>,
 
     /// Sample positions for select1.
@@ -114,7 +115,7 @@ impl SuccinctBitVector {
 
             // Store relative rank within superblock
             let relative_rank = cumulative_ones - superblock_start_ones;
-            block_ranks.push(relative_rank as u8);
+            block_ranks.push((relative_rank & 0xFF) as u8);
 
             // Count bits in this word
             let bits_in_word = if bit_pos + BLOCK_BITS <= len {
@@ -205,6 +206,22 @@ impl SuccinctBitVector {
         self.inner
     }
 
+    /// Returns the number of 1-bits between the start of the superblock and the start of block `block_idx`.
+    ///
+    /// `block_ranks` keeps the low 8 bits of that count. Within a superblock the count starts at 0,
+    /// never decreases and grows by at most 64 per block, so each time the stored byte gets
+    /// smaller the count has passed a multiple of 256.
+    fn block_rank(&self, block_idx: usize) -> usize {
+        let superblock_start = block_idx - block_idx % BLOCKS_PER_SUPERBLOCK;
+        let mut high = 0usize;
+        for i in superblock_start + 1..=block_idx {
+            if self.block_ranks[i] < self.block_ranks[i - 1] {
+                high += 256;
+            }
+        }
+        high + self.block_ranks[block_idx] as usize
+    }
+
     /// Returns the number of 1-bits in the range [0, pos).
     ///
     /// # Time complexity
@@ -240,7 +257,7 @@ impl SuccinctBitVector {
 
         // Add block relative count
         if block_idx < self.block_ranks.len() {
-            rank += self.block_ranks[block_idx] as usize;
+            rank += self.block_rank(block_idx);
         }
 
         // Add popcount within the current word
@@ -309,7 +326,7 @@ impl SuccinctBitVector {
 
         let mut block_idx = block_start;
         for i in block_start..block_end {
-            let block_rank = superblock_base_rank + self.block_ranks[i] as usize;
+            let block_rank = superblock_base_rank + self.block_rank(i);
             if block_rank >= target_rank {
                 break;
             }
@@ -317,7 +334,7 @@ impl SuccinctBitVector {
         }
 
         // Linear scan within the block
-        let block_base_rank = superblock_base_rank + self.block_ranks[block_idx] as usize;
+        let block_base_rank = superblock_base_rank + self.block_rank(block_idx);
         let remaining = k - block_base_rank;
 
         if block_idx >= self.inner.data().len() {
